@@ -612,22 +612,26 @@ Proof. cbn [literal_prefix_len]. apply match42. Qed.
 Lemma skip_cont_boundary l : starts_on_boundary l -> skip_cont l = l.
 Proof. destruct l as [|b r]; [reflexivity|]. cbn [starts_on_boundary skip_cont]. now intros ->. Qed.
 
-Lemma drop_chars_skip tail rest : starts_on_boundary rest -> forall p, nob 42 p = true ->
-  drop_chars (literal_prefix_len (p ++ 42 :: tail)) (skip_cont (p ++ rest)) = Some rest.
+Lemma drop_chars_skip suffix rest : literal_prefix_len suffix = O -> starts_on_boundary rest -> forall p, nob 42 p = true ->
+  drop_chars (literal_prefix_len (p ++ suffix)) (skip_cont (p ++ rest)) = Some rest.
 Proof.
-  intros Hr. induction p as [|x p IH]; intro Hp.
-  - cbn [app]. rewrite literal_prefix_len_cons, N.eqb_refl. cbn [drop_chars]. now rewrite skip_cont_boundary.
+  intros Hsuf Hr. induction p as [|x p IH]; intro Hp.
+  - cbn [app]. rewrite Hsuf. cbn [drop_chars]. now rewrite skip_cont_boundary.
   - rewrite nob_cons in Hp. apply andb_true_iff in Hp as [Hx Hp]. apply negb_true_iff in Hx.
     cbn [app]. rewrite literal_prefix_len_cons, Hx. cbn [skip_cont].
     destruct (cont x); [now apply IH|]. cbn [drop_chars]. now apply IH.
 Qed.
 
-(* String::remove(0) as many times as the pattern has characters before its first '*' removes exactly that prefix *)
-Lemma drop_chars_prefix p tail rest :
+(* String::remove(0) as many times as the pattern has characters before its first '*' (or in all, without '*') removes
+   exactly that prefix *)
+Lemma drop_chars_prefix p suffix rest :
+  (suffix = [] \/ exists tail, suffix = 42 :: tail) ->
   nob 42 p = true -> starts_on_boundary p -> starts_on_boundary rest ->
-  drop_chars (literal_prefix_len (p ++ 42 :: tail)) (p ++ rest) = Some rest.
+  drop_chars (literal_prefix_len (p ++ suffix)) (p ++ rest) = Some rest.
 Proof.
-  intros Hp Hb Hr. rewrite <- (skip_cont_boundary (p ++ rest)); [now apply drop_chars_skip|].
+  intros Hsuf Hp Hb Hr.
+  assert (H0 : literal_prefix_len suffix = O) by (destruct Hsuf as [->|(tail & ->)]; reflexivity).
+  rewrite <- (skip_cont_boundary (p ++ rest)); [now apply drop_chars_skip|].
   destruct p as [|x p]; [exact Hr | exact Hb].
 Qed.
 
@@ -728,7 +732,7 @@ Proof.
 Qed.
 
 Definition directory_route (matches prefix : bytes) : Prop :=
-  (exists tail, matches = prefix ++ 42 :: tail) /\
+  (matches = prefix \/ exists tail, matches = prefix ++ 42 :: tail) /\
   existsb (fun b => b =? 42) prefix = false /\ utf8_valid prefix = true.
 
 Section Complete.
@@ -781,7 +785,11 @@ Lemma directory_strip matches prefix rest :
   directory_route matches prefix -> starts_on_boundary rest ->
   drop_chars (literal_prefix_len matches) (prefix ++ rest) = Some rest.
 Proof.
-  intros ((tail & ->) & Hstar & Hu) Hr. apply drop_chars_prefix; [now apply existsb_nob | | exact Hr].
+  intros (Hm & Hstar & Hu) Hr.
+  assert (E : exists suffix, matches = prefix ++ suffix /\ (suffix = [] \/ exists tail, suffix = 42 :: tail)).
+  { destruct Hm as [->|(tail & ->)]; [exists []; rewrite app_nil_r; now split; [|left] | exists (42 :: tail); split; [reflexivity | right; now exists tail]]. }
+  destruct E as (suffix & -> & Hsuf).
+  apply drop_chars_prefix; [exact Hsuf | now apply existsb_nob | | exact Hr].
   now apply utf8_starts_on_boundary, utf8_valid_iff.
 Qed.
 
@@ -1106,3 +1114,20 @@ Lemma index_response_spec es :
          end
   end.
 Proof. unfold index_response. rewrite mime_html, mime_htm. reflexivity. Qed.
+
+(* ------------------------------------------------------------------------------------------------ *)
+(* the exclusions are sharp: a file whose name has "..", ':' or is not UTF-8 is NOT served (404), although it is a    *)
+(* possible entry of a well-formed tree.  (Confirmed on the real handlers: names "a..b", "a:b", "\xff.txt".)         *)
+(* ------------------------------------------------------------------------------------------------ *)
+Lemma complete_exclusions_sharp :
+  forall bad, In bad [[97;46;46;98]; [97;58;98]; [255;46;116;120;116]] ->
+    wf_fs (one_file_tree bad) /\
+    walk (one_file_tree bad) [] (split_on SLASH (trim_end_slashes [47;119;119;119])) = Some [[119;119;119]] /\
+    node_at (one_file_tree bad) ([[119;119;119]] ++ [bad]) = Some (File [1]) /\
+    serve_dir (one_file_tree bad) [47;119;119;119] [47;42] ([47] ++ join SLASH (map percent_encode [bad])) = R404 /\
+    directory_handler (one_file_tree bad) [47;119;119;119] [47;42] ([47] ++ join SLASH (map percent_encode [bad])) = R404 /\
+    ~ clean bad.
+Proof.
+  intros bad [<-|[<-|[<-|[]]]]; (split; [apply wf_fsb_sound; vm_compute; reflexivity|]);
+    repeat (split; [vm_compute; reflexivity|]); intros (H1 & H2 & H3); vm_compute in H1, H2, H3; discriminate.
+Qed.
